@@ -18,12 +18,10 @@ func zzC16Bytes() {
 	}
 	vAssert(c >= 1 && c <= n, "consumed outside the input")
 	vAssert(len(res) <= c, "result longer than consumed")
-	if len(res) > 0 {
-		if newBuf {
-			vAssert(!vSameCell(res, buf), "newBuf=true but result aliases the input")
-		} else {
-			vAssert(vSameCell(res, buf), "result is not a sub-range of the input")
-		}
+	if newBuf {
+		vAssert(!vSameCell(res, buf), "newBuf=true but result aliases the input")
+	} else if len(res) > 0 {
+		vAssert(vSameCell(res, buf), "result is not a sub-range of the input")
 	}
 	for i := range res {
 		vAssert(res[i] == buf[c-len(res)+i], "result bytes differ from input range")
